@@ -387,6 +387,20 @@ def _nonpositive_source(fn, s: ast.Assign, vals: str):
                     return True, f"{attr_chain(v.func)} over [{ast.unparse(g.ifs[0])}]"
                 return False, f"filter {[ast.unparse(i) for i in g.ifs]} does not imply excess <= 0"
         return False, "not a filtered comprehension over the evaluated excess values"
+    # (iv) next((val for .. in <sorted values> if val < 0), default): the first such value, or the default
+    if isinstance(v, ast.Call) and attr_chain(v.func) == "next" and v.args and isinstance(v.args[0], ast.GeneratorExp) and len(v.args[0].generators) == 1:
+        ge = v.args[0]
+        g = ge.generators[0]
+        tnames = [t.id for t in ast.walk(g.target) if isinstance(t, ast.Name)]
+        if not (isinstance(ge.elt, ast.Name) and ge.elt.id in tnames):
+            return False, "next() over something else than the scanned values"
+        if not (len(g.ifs) >= 1 and any(_implies_nonpositive(t_, ge.elt.id) for t_ in g.ifs)):
+            return False, f"next() takes '{ge.elt.id}' without a filter implying excess <= 0"
+        dflt_ok = len(v.args) == 1 or (isinstance(v.args[1], ast.Constant) and v.args[1].value is None)
+        if not dflt_ok:
+            return False, "next() falls back on a default that is not an evaluated non-positive excess"
+        src_ok = _derives_from(fn, g.iter, vals, s.lineno)
+        return (True, f"first of {ast.unparse(g.iter)[:40]} with excess <= 0") if src_ok else (False, "next() does not scan the evaluated excess values")
     # (ii) a loop variable over (sorted) values, under a guard implying <= 0
     if isinstance(v, ast.Name):
         for n in ast.walk(fn):
@@ -480,7 +494,7 @@ def _successive(prog: Program, res: Result, lb: int):
     res.count("successive_return_paths", n)
     res.floor("successive_return_paths", 1)
     # inside the loop: each list's search result is sized after compute_g_functions, and the drilling it records is nbh * H
-    loop = [n for n in ast.walk(fi.node) if isinstance(n, ast.While)]
+    loop = [n for n in ast.walk(fi.node) if isinstance(n, (ast.While, ast.For)) and any(isinstance(c_, ast.Call) and attr_chain(c_.func) == "self.search" for c_ in ast.walk(n))]
     if len(loop) != 1:
         raise AnalysisError(f"{q}: main loop not found")
     seq = []
